@@ -17,8 +17,11 @@ Representation choices (the tie to the code is the correspondence run of `./chec
   iterates over a map, so no iteration order is involved.  `wildcard_imports` is a `Vec` and stays a list in
   push order.
 * only the statement forms that matter for module resolution are modelled: `fn`, inline `mod`, `use`
-  (single / multiple / wildcard, with or without `pub`).  Type declarations, external files, stage
-  declarations and global `let` statements inside modules are not modelled.
+  (single / multiple / wildcard, with or without `pub`) and `let` declarations with a single-name pattern, at top
+  level and inside modules (`GlobalStatement(Statement::Let)`; the grammar accepts `pub let`, `lower_let_decl`
+  drops the flag).  A module-level `let` is **not** mangled by the flattening: it binds its plain name and only
+  leaves `module_context_map[name] = prefix` behind (ported literally; findings F12-letglobal / F12-letctx).
+  Type declarations, external files, stage declarations, tuple / record patterns are not modelled.
 * expressions: the constructors that bind names or refer to names (`Let`, `LetRec`, `Lambda`, `Var`,
   `QualifiedVar`) plus nullary `Apply`; every other constructor of `convert_expr` is a plain homomorphic
   traversal.  `LetRec`/`Let` with `then = None` is written with `then := .unit`.
@@ -51,6 +54,7 @@ inductive Item where
   | fn (pub : Bool) (name : Name) (params : List Name) (body : Expr)
   | mod (pub : Bool) (name : Name) (items : List Item)
   | use (pub : Bool) (path : List Name) (target : UseTarget)
+  | letD (pub : Bool) (name : Name) (rhs : Expr)
 deriving Repr, Inhabited
 
 /-- one step of the depth-first walk of `stmts_from_program_with_prefix`, with the module prefix in force -/
@@ -58,6 +62,7 @@ inductive Ev where
   | fn (pre : List Name) (pub : Bool) (name : Name) (params : List Name) (body : Expr)
   | modOpen (pre : List Name) (name : Name)
   | use (pre : List Name) (pub : Bool) (path : List Name) (target : UseTarget)
+  | letS (pre : List Name) (pub : Bool) (name : Name) (rhs : Expr)
 deriving DecidableEq, Repr, Inhabited
 
 mutual
@@ -66,6 +71,7 @@ def Item.events (pre : List Name) : Item → List Ev
   | .fn p x ps b => [.fn pre p x ps b]
   | .mod _ x sub => .modOpen pre x :: eventsL (pre ++ [x]) sub
   | .use p path t => [.use pre p path t]
+  | .letD p x e => [.letS pre p x e]
 def eventsL (pre : List Name) : List Item → List Ev
   | [] => []
   | i :: is => i.events pre ++ eventsL pre is
@@ -133,14 +139,19 @@ def step (i : Info) : Ev → Info
         else { i with loaded := [base] :: i.loaded, fileErrs := i.fileErrs + 1 }
       | none => i
     processUse pub path t pre i
+  | .letS pre _ x _ =>
+    -- `collect_statement_bindings`: the *plain* name gets the module prefix as its context; no visibility entry
+    { i with ctxMap := if pre.isEmpty then i.ctxMap else ([x], pre) :: i.ctxMap }
 
 def lowerInfo (evs : List Ev) : Info := evs.foldl step {}
 
-/-- the flattened statement list: `LetRec(mangled, Lambda(params, body))` per function, in walk order,
-folded into one expression by `into_then_expr`; `tail` stands for what follows the last statement -/
+/-- the flattened statement list: `LetRec(mangled, Lambda(params, body))` per function and `Let(name, rhs)` per
+`let` declaration (name **not** mangled), in walk order, folded into one expression by `into_then_expr`; `tail`
+stands for what follows the last statement -/
 def chain (tail : Expr) : List Ev → Expr
   | [] => tail
   | .fn pre _ x ps b :: rest => .letrec (pre ++ [x]) (.lam ps b) (chain tail rest)
+  | .letS _ _ x e :: rest => .letE x e (chain tail rest)
   | _ :: rest => chain tail rest
 
 /-! ### pass 1: `collect_defined_names` (no scoping at all) -/
@@ -233,10 +244,11 @@ def convertExpr (info : Info) (known : Sym → Bool) : List Name → List (List 
   | cur, ls, .qvar segs => let r := convertQVar ⟨info, known, cur, ls⟩ segs; (.var r.1, r.2)
   | cur, ls, .call f => let r := convertExpr info known cur ls f; (.call r.1, r.2)
   | cur, ls, .letE x e t =>
-    -- `find_pattern_module_context`; note that `then` is converted before the context is restored
+    -- `find_pattern_module_context`: the context of the pattern's name covers the right-hand side only
+    -- (since /repo 8a25d9f; before, `then` was converted under `cur'` too)
     let cur' := match get? info.ctxMap [x] with | some c => c | none => cur
     let r1 := convertExpr info known cur' ls e
-    let r2 := convertExpr info known cur' ([[x]] :: ls) t
+    let r2 := convertExpr info known cur ([[x]] :: ls) t
     (.letE x r1.1 r2.1, r1.2 ++ r2.2)
   | cur, ls, .lam ps b =>
     let r := convertExpr info known cur (ps.map (fun p => [p]) :: ls) b
